@@ -417,6 +417,17 @@ def apply_fault(out, eligible, fault, rnd, d):
             return None
         out[i] = line[:m.start()] + repl + line[m.end():]
         return fault
+    if fault == 'block-index-zero':
+        # atoms of a block can be named by their 1-based index: 0 (and a number beyond the atoms) names no atom
+        c = [i for i, l in enumerate(out) if l.startswith('[ moleculetype ]')]
+        if not c:
+            return None
+        i = rnd.choice(c)
+        j = i + 1
+        while j < len(out) and not (out[j].startswith('[ ') and out[j].split()[1] in ('link', 'modification', 'moleculetype', 'macros', 'variables', 'citations')):
+            j += 1
+        out[j:j] = ['[ bonds ]', '0 1 1 0.3 1000']
+        return fault
     if fault == 'wrong-arity':
         i = pick('fixed-arity')
         if i is None:
@@ -639,7 +650,7 @@ def check_ff(rnd, b):
 
 
 FAULTS = ['unknown-section', 'undefined-block-atom', 'duplicate-block-atom', 'unbalanced-brace', 'prefix-order-contradiction',
-          'wrong-arity']
+          'wrong-arity', 'block-index-zero']
 
 
 def check_ff_fault(rnd, b):
@@ -647,6 +658,9 @@ def check_ff_fault(rnd, b):
     from vermouth.forcefield import ForceField
     d = gen_ff(rnd)
     fault = rnd.choice(FAULTS)
+    if fault == 'block-index-zero' and not _SETTLE[0]:
+        # recorded finding (the shipped martini3001 small-molecule file relies on index 0): drawn in every eighth batch only
+        fault = 'wrong-arity'
     text, applied = render_ff(d, rnd, fault=fault)
     if not applied:
         return 'skip', fault, text
